@@ -222,7 +222,7 @@ def gen_request(rng, cfg, body_kind=None, expect=False, method=None, allow_pipel
             return None          # a mandatory field did not fit the limits
     m.add(eol(rng, cfg.strict), "blank-line")
     is_head = meth == b"HEAD"
-    seen_meth = b"GET" if (is_head and cfg.xlate) else meth
+    seen_meth = b"GET" if (is_head and cfg.xlate in (1, 3)) else meth
     ver = "%d%d" % (ma, mi)
 
     def vevent(b):
